@@ -78,6 +78,8 @@ class CallMixin:
         return outs
 
     def try_mutator(self, e, st, cx):
+        if getattr(cx, "module_level", False):
+            pass
         outs = []
         res = self.ev(e.func.value, st, cx)
         handled = False
@@ -156,7 +158,7 @@ class CallMixin:
             return [(st, self.call_unint(f.target, args, st))]
         qn = f.qn
         c = self.reg.contracts.get(qn)
-        if c is not None and not c.inline and not (qn == getattr(cx, "verifying", None) and False):
+        if c is not None and not c.inline and qn not in self.reg.inline_ok:
             return self.apply_contract(c, args, kw, st, cx, node)
         if f.kind == "contract":
             raise Unsupported("no contract for %s" % qn)
@@ -569,6 +571,8 @@ class CallMixin:
         env2["result"] = res
         for lab, ex in c.ensures:
             st.pc.append(truth(self.eval_spec(ex, st, env2, pre, c.module)))
+            if self.paranoid and not self.feasible(st):
+                raise Unsupported("assuming ensures '%s' of %s makes the path infeasible (contradictory contract?)" % (lab, c.qn))
         st.env = caller_env
         return [(st, res)]
 
@@ -581,7 +585,11 @@ class CallMixin:
         return m.get(name, "builtins." + name)
 
     def havoc(self, st, c: Contract, cx):
-        allocs = False
+        allocs = any(not (m.startswith("global:") or m.startswith("ghost:")) for m in c.modifies)
+        if allocs:
+            nt = z3.FreshConst(z3.IntSort(), "top")
+            st.pc.append(nt >= st.top)
+            st.top = nt
         for m in c.modifies:
             if m.startswith("global:"):
                 qn = m[7:]
@@ -594,14 +602,6 @@ class CallMixin:
                 v = fresh(self.reg.ghosts[n], "gh")
                 self.assume_wf(st, v)
                 st.ghost[n] = v
-            elif m == "alloc":
-                allocs = True
-            else:
-                allocs = True
-        if allocs:
-            nt = z3.FreshConst(z3.IntSort(), "top")
-            st.pc.append(nt >= st.top)
-            st.top = nt
         for m in c.modifies:
             if m.startswith("global:") or m.startswith("ghost:") or m == "alloc":
                 continue
@@ -614,7 +614,6 @@ class CallMixin:
                 raise Unsupported("modifies of undeclared field %s" % m)
             k = self.heap_key(name, cls)
             a = z3.FreshConst(z3.ArraySort(z3.IntSort(), s.z3()), "H_" + k)
-            self._heap_wf(a, s, st.top, into=st.pc)
             st.heap[k] = a
 
 
